@@ -271,7 +271,7 @@ func runWire(c WireCase) core.Result {
 	}()
 	// waitFrames blocks until the remote has n complete frames (or the injected fault has cut the stream).
 	waitFrames := func(n int) bool {
-		deadline := time.Now().Add(4 * time.Second)
+		deadline := time.Now().Add(20 * time.Second)
 		for time.Now().Before(deadline) {
 			capMu.Lock()
 			fr, _ := refwire.SplitFrames(captured)
@@ -291,7 +291,7 @@ func runWire(c WireCase) core.Result {
 			// choke discards piece messages still queued in the writer (documented); wait until everything
 			// sent so far is on the wire so that the expected stream is deterministic.
 			if !waitFrames(i) {
-				return core.Failf("after 4 s the remote has fewer than the %d frames sent so far", i)
+				return core.Failf("after 20 s the remote has fewer than the %d frames sent so far", i)
 			}
 		}
 		send(w, m)
@@ -300,7 +300,7 @@ func runWire(c WireCase) core.Result {
 		capMu.Lock()
 		fr, _ := refwire.SplitFrames(captured)
 		capMu.Unlock()
-		return core.Failf("after 4 s the remote has %d complete frames; %d messages were sent", len(fr), len(c.Msgs))
+		return core.Failf("after 20 s the remote has %d complete frames; %d messages were sent", len(fr), len(c.Msgs))
 	}
 	// The writer reports each block after the write returns; give the report time to arrive before stopping
 	// (a report racing with Stop is dropped by design: the peer is gone). Converging late is fine, not converging is not.
